@@ -156,3 +156,29 @@ func VerifC11SeedShuffle(seed int64) {
 
 // VerifC11Shuffle is shuffleHosts.
 func VerifC11Shuffle(hosts []*HostInfo) []*HostInfo { return shuffleHosts(hosts) }
+
+// VerifC11SetReplicas replaces the replica map of the keyspace by a single range covering every
+// token whose replica list is hosts (in that order, repetitions allowed), so that Pick can be
+// exercised on replica lists the placement strategies do not (or no longer) produce. It needs an
+// installed ring with at least one token; the next ring or keyspace update overwrites it.
+func VerifC11SetReplicas(p HostSelectionPolicy, keyspace string, hosts []*HostInfo) bool {
+	t, ok := p.(*tokenAwareHostPolicy)
+	if !ok {
+		return false
+	}
+	t.mu.Lock()
+	defer t.mu.Unlock()
+	meta := t.getMetadataForUpdate()
+	if meta.tokenRing == nil || len(meta.tokenRing.tokens) == 0 {
+		return false
+	}
+	replicas := make(map[string]tokenRingReplicas, len(meta.replicas)+1)
+	for ks, r := range meta.replicas {
+		replicas[ks] = r
+	}
+	last := meta.tokenRing.tokens[len(meta.tokenRing.tokens)-1].token
+	replicas[keyspace] = tokenRingReplicas{{token: last, hosts: append([]*HostInfo(nil), hosts...)}}
+	meta.replicas = replicas
+	t.metadata.Store(meta)
+	return true
+}
